@@ -2,6 +2,7 @@ package core
 
 import (
 	"bytes"
+	"go/constant"
 	"os"
 	"fmt"
 	"go/ast"
@@ -491,6 +492,28 @@ func (p *Prog) boundsProvedByFacts(fn *ssa.Function, s BCESite) bool {
 		}
 		return FactsImply(in, LEZero(d))
 	}
+	// x & K with a constant K below a constant capacity is in bounds whatever x is
+	masked := func(v ssa.Value, c Lin) bool {
+		for {
+			if cv, ok := v.(*ssa.Convert); ok {
+				v = cv.X
+				continue
+			}
+			break
+		}
+		bo, ok := v.(*ssa.BinOp)
+		if !ok || bo.Op != token.AND || !c.isConst() {
+			return false
+		}
+		for _, op := range []ssa.Value{bo.X, bo.Y} {
+			if k, isK := op.(*ssa.Const); isK && k.Value != nil {
+				if n, exact := constant.Int64Val(constant.ToInt(k.Value)); exact && n >= 0 && n < c.K {
+					return true
+				}
+			}
+		}
+		return false
+	}
 	eachInstr(fn, func(in ssa.Instruction) {
 		pos := p.Fset.Position(in.Pos())
 		// the compiler and go/ssa do not always agree on the column of an expression:
@@ -505,13 +528,13 @@ func (p *Prog) boundsProvedByFacts(fn *ssa.Function, s BCESite) bool {
 		case *ssa.IndexAddr:
 			n++
 			c, known := capOf(x.X)
-			if !known || !nonNeg(in, x.Index) || !le(in, Linearize(x.Index), c, true) {
+			if !known || !(masked(x.Index, c) || nonNeg(in, x.Index) && le(in, Linearize(x.Index), c, true)) {
 				ok = false
 			}
 		case *ssa.Index:
 			n++
 			c, known := capOf(x.X)
-			if !known || !nonNeg(in, x.Index) || !le(in, Linearize(x.Index), c, true) {
+			if !known || !(masked(x.Index, c) || nonNeg(in, x.Index) && le(in, Linearize(x.Index), c, true)) {
 				ok = false
 			}
 		case *ssa.Slice:
